@@ -979,13 +979,10 @@ func (g *gstate) run() {
 // ---------------------------------------------------------------------------
 // round driver
 
-// cpuMillis: user+system CPU time of this process (rounds run one after the other).
-func minflt() int64 {
-	var ru syscall.Rusage
-	syscall.Getrusage(syscall.RUSAGE_SELF, &ru)
-	return ru.Minflt
-}
+// drainBudget: total wall time the run may still spend waiting for asynchronous commits.
+var drainBudget = 60 * time.Second
 
+// cpuMillis: user+system CPU time of this process (rounds run one after the other).
 func cpuMillis() int64 {
 	var ru syscall.Rusage
 	if syscall.Getrusage(syscall.RUSAGE_SELF, &ru) != nil {
@@ -1032,7 +1029,6 @@ func runRound(r *vf.Run, rd *round, bufs [][]byte) (goOn bool) {
 			g.run()
 		}(gs[i])
 	}
-	f0, c0 := minflt(), cpuMillis()
 	finished := r.Watchdog(10*time.Minute, "round did not finish", func() {
 		close(start)
 		wg.Wait()
@@ -1041,8 +1037,6 @@ func runRound(r *vf.Run, rd *round, bufs [][]byte) (goOn bool) {
 		return false // goroutines leaked and still use the scratch buffers: stop the run (inconclusive recorded)
 	}
 
-	r.Count("EXP_faults_run", int(minflt()-f0))
-	r.Count("EXP_cpu_run", int(cpuMillis()-c0))
 	var tot [nCounters]int64
 	for _, g := range gs {
 		for i, v := range g.cnt {
@@ -1055,26 +1049,36 @@ func runRound(r *vf.Run, rd *round, bufs [][]byte) (goOn bool) {
 
 	// Quiescence, decided on state: every writer that was closed without Commit/Abort leaves
 	// exactly one file in wip/, every other wip file disappears (rename or remove) when its
-	// (possibly asynchronous) commit finished. Only then is the final sweep meaningful and
-	// Close() free of "failed to commit" noise. Not reached in time => inconclusive, no verdict.
+	// (possibly asynchronous) commit finished. Waiting for that only makes the final sweep
+	// more useful (more hits) and keeps Close() free of "failed to commit" noise; the sweep
+	// is judged by the same oracle whether or not the cache is quiescent (a miss is always
+	// fine), so the wait is bounded tightly (per round and per run) and decides no verdict.
 	drained := true
 	if dir != "" {
 		want := int(tot[cCloseOnly])
-		deadline := time.Now().Add(60 * time.Second)
+		limit := 10 * time.Second
+		if drainBudget < limit {
+			limit = drainBudget
+		}
+		t := time.Now()
 		for countWip(dir) != want {
-			if time.Now().After(deadline) {
+			if time.Since(t) > limit {
 				drained = false
 				break
 			}
 			time.Sleep(time.Millisecond)
 		}
-		if !drained && tot[cCommitErr]+tot[cAddErr]+tot[cWriteErr]+tot[cAbortErr] == 0 {
-			r.Inconclusive("asynchronous commits did not drain within 60s (final sweep skipped)")
+		if !drained {
+			drainBudget -= time.Since(t)
+			if drainBudget < 200*time.Millisecond {
+				drainBudget = 200 * time.Millisecond
+			}
+			r.Inconclusive("asynchronous commits did not drain (wip/ not in its expected final state) before the final sweep; sweep judged anyway")
 		}
 	}
-	// Final sweep at quiescence (single goroutine): every key, default and Direct Get.
+	// Final sweep (single goroutine): every key, default and Direct Get.
 	sweepHits := 0
-	if drained {
+	{
 		g := gs[0]
 		g.cur = -1
 		before := g.cnt[cHit]
@@ -1086,6 +1090,9 @@ func runRound(r *vf.Run, rd *round, bufs [][]byte) (goOn bool) {
 		}
 		sweepHits = int(g.cnt[cHit] - before)
 		r.Count("final_sweep_hits", sweepHits)
+		if drained {
+			r.Count("rounds_drained_before_sweep", 1)
+		}
 	}
 	c.Close()
 	if dir != "" {
@@ -1149,7 +1156,7 @@ func sampleOps(rd *round, g, n int) []string {
 
 func body(r *vf.Run) {
 	configs := allConfigs()
-	n := r.N(17*4, 17*20) // every configuration 4 / 20 times (capacities, goroutine and key counts redrawn each time)
+	n := r.N(17*3, 17*18) // every configuration 3 / 18 times (capacities, goroutine and key counts redrawn each time)
 	if v, err := strconv.Atoi(os.Getenv("C11_ROUNDS")); err == nil && v > 0 {
 		n = v // development only (timing experiments); a run below the floor exits 3
 	}
@@ -1165,10 +1172,7 @@ func body(r *vf.Run) {
 		bufs[i] = b
 	}
 	for i := 0; i < n; i++ {
-		f0, c0 := minflt(), cpuMillis()
 		rd := genRound(r, i, configs)
-		r.Count("EXP_faults_gen", int(minflt()-f0))
-		r.Count("EXP_cpu_gen", int(cpuMillis()-c0))
 		if !runRound(r, rd, bufs) {
 			break
 		}
@@ -1221,10 +1225,30 @@ func accountHarnessVisibleRaces(r *vf.Run) {
 	}
 }
 
+// tuneRaceRuntime re-executes the race build once with one extra ThreadSanitizer runtime
+// flag. By default tsan resets the shadow of every allocation above 64 KiB (each growth of
+// a bytes.Buffer inside the cache beyond that) by re-mmap()ing it; on this (virtualised,
+// loaded) machine the mmap + TLB shootdown + re-faulting costs 100-300 ms per buffer and
+// serialises all threads (measured: one memory-cache round 12 s -> 0.6 s with the flag).
+// The flag only changes HOW shadow is cleared (memset instead of mmap), not what is detected.
+func tuneRaceRuntime() {
+	const flag = "clear_shadow_mmap_threshold"
+	if !raceBuild || strings.Contains(os.Getenv("GORACE"), flag) {
+		return
+	}
+	self, err := os.Executable()
+	if err != nil {
+		return
+	}
+	os.Setenv("GORACE", strings.TrimSpace(os.Getenv("GORACE")+" "+flag+"=1073741824"))
+	_ = syscall.Exec(self, os.Args, os.Environ()) // same pid, same race log name; on failure just carry on
+}
+
 func main() {
+	tuneRaceRuntime()
 	vf.Main("C11", "exploration",
 		"each case is one round: a fresh cache of one configuration (directory cache x {Direct,SyncAdd,FadvDontNeed} x {layer.newCache wiring, default wiring} or the memory cache; LRU capacities 1-4), "+
 			"8-32 goroutines x 30-90 scripted ops over a key set larger than both LRU capacities, all drawn from the seed; "+
 			"non-trivial = the round fully verified >=10 hits, among them values written by another goroutine, hits from every tier the configuration serves from (memory LRU and file for non-direct directory caches, file for direct ones), and re-read at least one Reader held open across other operations; distinct by round script",
-		20, 100, body)
+		15, 90, body)
 }
